@@ -56,7 +56,7 @@ func checkC04(e *RunEnv) *CheckResult {
 				steps = append(steps, Run(append([]string{"add"}, al...)...).WithTags(t...))
 				steps = append(steps, Run(append([]string{"rm"}, al...)...).WithTags(t...))
 			}
-			for _, al := range [][]string{{"a", "d", "nope"}, {"a", "d/x", "d-x"}, {"d/s", "a", "ad"}} {
+			for _, al := range [][]string{{"a", "d", "nope"}, {"a", "d/x", "d-x"}, {"d/s", "a", "ad"}, {"a", "./a", "d-x"}, {"d/x", "d", "d0"}} {
 				t3 := pathArgTags(a, al)
 				steps = append(steps, Run(append([]string{"add"}, al...)...).WithTags(t3...), Run(append([]string{"rm"}, al...)...).WithTags(t3...))
 			}
